@@ -113,6 +113,20 @@ def _api():
         # unsorted, possibly nested / duplicated intervals: sort and merge have work to do
         return dt.Interval(["chr1"] * len(s), s[::-1].copy(), e[::-1].copy())
 
+    def intervals_sorted(b, table, fmt):
+        # sorted by start, stops non-decreasing, no nesting: the shape the sort-and-cumulate tricks take shortcuts on
+        if not all(x in fmt.field_names() for x in ("chromosome", "start", "stop")):
+            return None
+        import bionumpy.datatypes as dt
+        s = np.sort(np.asarray(table.start) % 1000)
+        s = s + np.arange(len(s)) * 3
+        return dt.Interval(["chr1"] * len(s), s, s + 2)
+
+    def quality_text(b, table, fmt):
+        if fmt.layout != "fastq":
+            return None
+        return b.as_encoded_array(["".join(chr(33 + q) for q in row) for row in plain(table.quality)])
+
     def dna(b, table, fmt):
         if "sequence" not in fmt.field_names() or fmt.name == "sam":
             return None
@@ -149,6 +163,15 @@ def _api():
 
     def f_tolist(b, x):
         return x.tolist()
+
+    def f_merge_distance(b, x):
+        return b.arithmetics.merge_intervals(x, distance=7)
+
+    def f_g_merged_distance(b, x):
+        return _gi(b, x).merged(distance=5).get_data()
+
+    def f_to_quality(b, x):
+        return b.as_encoded_array(x, b.encodings.QualityEncoding)
 
     # -- more interval arithmetic (two-argument functions are called with the table and a shifted copy of it)
     def _shifted(x):
@@ -253,7 +276,13 @@ def _api():
             ("table_tolist", intervals, f_t_tolist), ("table_mask", intervals, f_t_mask),
             ("get_kmers_3", dna, f_kmers3), ("get_minimizers", dna, f_minimizers), ("count_kmers", dna, f_count_kmers),
             ("match_string", dna, f_match_string), ("translate", dna, f_translate), ("as_encoded_array_base", dna, f_as_ascii),
-            ("as_encoded_array_dna", text_seq, f_to_dna)]
+            ("as_encoded_array_dna", text_seq, f_to_dna),
+            ("merge_intervals_distance", intervals, f_merge_distance),
+            ("merge_intervals_distance_sorted", intervals_sorted, f_merge_distance),
+            ("merge_intervals_sorted", intervals_sorted, f_merge), ("sort_intervals_sorted", intervals_sorted, f_sort),
+            ("genome_merged_distance", intervals_sorted, f_g_merged_distance),
+            ("genome_get_pileup_sorted", intervals_sorted, f_g_pileup),
+            ("as_encoded_array_quality", quality_text, f_to_quality)]
 
 
 API = _api()
